@@ -163,6 +163,20 @@ def build_py():
     return True, ""
 
 
+def trim_gocache(limit_mb=12000):
+    """The generated-code harness builds every program in its own scratch module, so Go's build cache grows by
+    100-200 MB per build and is never trimmed within a day: drop it when it has grown past the limit (disk is
+    limited in this sandbox; a full cache once took 129 GB)."""
+    try:
+        rc, out, err = run(["go", "env", "GOCACHE"], env=GOENV, timeout=60)
+        d = out.strip()
+        if rc != 0 or not d or not os.path.isdir(d): return
+        rc, out, err = run(["du", "-sm", d], timeout=600)
+        if rc == 0 and int(out.split()[0]) > limit_mb:
+            run(["go", "clean", "-cache"], env=GOENV, timeout=1800)
+    except Exception:
+        pass
+
 def generate_params():
     """Regenerate lean/FV/Generated/Params.lean from /repo's working tree (go/ast extractor)."""
     os.makedirs(BUILD, exist_ok=True)
